@@ -2,6 +2,7 @@ import OapiVerif.Model.Strict
 import OapiVerif.Proofs.GoJsonEnc
 import OapiVerif.Proofs.Form
 import OapiVerif.Gen.C12
+import OapiVerif.Proofs.Bodies
 /-!
 C12 — Strict server delivers decoded requests and writes the declared responses.
 
@@ -132,3 +133,32 @@ theorem C12_form_body_equals_sent (fs : List Field) (vs : List (Option SVal)) (h
     (hw : wellTyped fs vs = true) : bind (marshal fs vs) fs = some vs := bind_marshal fs vs hnd hw
 
 end OapiVerif.Form
+
+namespace OapiVerif.Bodies
+
+/-- What the strict server decodes into a typed body: exactly the media classes the documentation names — JSON and
+other JSON types, multipart, form, text — and the raw reader for everything else: a definition is supported exactly when
+its media type falls into one of the five classes. -/
+theorem C12_supported_iff_media_class (E : Env) (ct : Str) (hc : ∀ c, E.isJson c = true → E.camel c ≠ []) :
+    (mkBody E ct).supported = true ↔
+      (ct = appJson ∨ E.isJson ct = true ∨ multipartPrefix.isPrefixOf ct = true ∨ ct = formUrl ∨ ct = textPlain) := by
+  unfold mkBody classify Body.supported
+  by_cases h : ct = appJson
+  · rw [if_pos h]; simp [h, w]
+  · rw [if_neg h]
+    by_cases h1 : E.isJson ct = true
+    · rw [if_pos h1]
+      have := hc ct h1
+      simp [h1, this]
+    · rw [if_neg h1]
+      by_cases h2 : multipartPrefix.isPrefixOf ct = true
+      · rw [if_pos h2]; simp [h2, w]
+      · rw [if_neg h2]
+        by_cases h3 : ct = formUrl
+        · rw [if_pos h3]; simp [h3, w]
+        · rw [if_neg h3]
+          by_cases h4 : ct = textPlain
+          · rw [if_pos h4]; simp [h4, w]
+          · rw [if_neg h4]; simp [h, h1, h2, h3, h4]
+
+end OapiVerif.Bodies
